@@ -276,41 +276,42 @@ theorem C02_order (cfg : Cfg) (es : List Event) (s : DState) (outs : List Out)
   refine ⟨List.prefix_append _ _, ?_⟩
   cases (protoOf s.st).pending <;> simp
 
-/-- Full statement (no hypothesis on the configuration) — **false** when an upgrade service is
-configured: decoding an upgrade request (`MessageType::Stream if upgrade.is_some()`) overwrites
-the codec context without saving it for the in-flight response, and the queued `Upgrade` message
-carries none, so (a) the response to an earlier request that is still in flight is encoded with
-the upgrade request's context and (b) the upgrade service's `Framed` encodes its 101 with the
-context of whatever request was answered last (known findings `earlier-response-has-upgrade-ctx`,
-`upgrade-ctx-of-earlier-request`; `witness_upgrade_ctx`).
-
-theorem C02_context : Out.head (some r) f ∈ outs → ∃ rq ctx res size, rq.rid = r ∧ ctxMatches cfg ctx rq ∧ f = headFacts ctx res size
-
-**C02_context_partial** (former findings F1 / F1b / F1c, fixed): without an upgrade service,
-every response head written for request `r` on any accepted run is `headFacts ctx res size` for a
-context `ctx` that is request `r`'s own — HEAD flag, version and connection type are those of the
-request being answered, no matter what else has been decoded (pipelined) in the meantime. -/
-theorem C02_context_partial (cfg : Cfg) (hup : cfg.upgrade = false) (es : List Event) (s : DState) (outs : List Out)
+/-- **C02_context** (former findings F1 / F1b / F1c and the two upgrade-context findings, all
+fixed): every response head written for request `r` on any accepted run — with or without an
+upgrade service configured — is `headFacts ctx res size` for a context `ctx` that is request
+`r`'s own: HEAD flag, version and connection type are those of the request being answered, no
+matter what else (pipelined requests, an upgrade request) has been decoded in the meantime. -/
+theorem C02_context (cfg : Cfg) (es : List Event) (s : DState) (outs : List Out)
     (h : runRev cfg es = some (s, outs)) (r : Nat) (f : HeadFacts) (hm : Out.head (some r) f ∈ outs) :
     ∃ (rq : ReqFacts) (ctx : EncCtx) (res : RespHead) (size : BodySize), rq.rid = r ∧ ctxMatches cfg ctx rq ∧ f = headFacts ctx res size :=
-  run_heads cfg hup es s outs h r f hm
-
-def wCfgPlain : Cfg :=
-  { kaEnabled := true, kaTimeout := true, reqTimeout := true, discTimeout := false, allowHalfClosed := true,
-    writeBufSize := 1 }
-
-example : ∃ cfg : Cfg, cfg.upgrade = false := ⟨wCfgPlain, rfl⟩
+  run_heads cfg es s outs h r f hm
 
 /-- corollaries in the property's own words: the response carries the request's version, and a
 response to a HEAD request never has body bytes. -/
-theorem C02_context_version_head_partial (cfg : Cfg) (hup : cfg.upgrade = false) (es : List Event) (s : DState)
+theorem C02_context_version_head (cfg : Cfg) (es : List Event) (s : DState)
     (outs : List Out) (h : runRev cfg es = some (s, outs)) (r : Nat) (f : HeadFacts)
     (hm : Out.head (some r) f ∈ outs) :
     ∃ rq : ReqFacts, rq.rid = r ∧ f.version = rq.version ∧ (rq.isHead = true → f.te = TE.empty) := by
-  obtain ⟨rq, ctx, res, size, hr, hc, rfl⟩ := C02_context_partial cfg hup es s outs h r f hm
+  obtain ⟨rq, ctx, res, size, hr, hc, rfl⟩ := C02_context cfg es s outs h r f hm
   refine ⟨rq, hr, hc.2.1, ?_⟩
   intro hh
   exact C02_head_head ctx res size (by rw [hc.1]; exact hh)
+
+/-- the upgrade request's own context is installed when the connection is handed over: what the
+upgrade service encodes through the `Framed` uses the upgrade request's context, not that of the
+request answered last -/
+theorem C02_upgrade_ctx_installed (cfg : Cfg) (s : DState) (r : ReqFacts) (ctx : EncCtx) (rest : List Msg)
+    (hd : s.flags.draining = false) (hm : s.messages = .upgrade r ctx :: rest) :
+    (applyPop cfg s).1.ctx = ctx ∧ (applyPop cfg s).1.st = .upgrade r := by
+  simp [applyPop, hd, hm]
+
+/-- queuing an upgrade request leaves the codec context (of the response still to be encoded) alone
+and stores the upgrade request's own context with the message -/
+theorem C02_upgrade_queue_keeps_ctx (cfg : Cfg) (s0 : DState) (r : ReqFacts)
+    (hb : r.body = .stream) (hu : cfg.upgrade = true) :
+    (applyDecoded cfg s0 (.item r)).1.ctx = s0.ctx ∧
+    (applyDecoded cfg s0 (.item r)).1.messages = s0.messages ++ [.upgrade r (newCtx cfg s0.ctx r)] := by
+  simp [applyDecoded, hb, hu]
 
 /-! ### hand-over to the upgrade service and flushing lose no output -/
 
@@ -342,7 +343,7 @@ theorem C02_upgrade_handover_keeps_output (cfg : Cfg) (s s' : DState) (o : List 
           rcases sendResponse_cases cfg { s with messages := rest } none
             { status := status, connType := none, chunked := true, headers := [] } (.sized 0) true with
             ⟨_, f, h2⟩ | ⟨_, f, h2⟩ <;> (simp only [Bool.false_eq_true, if_false] at hu; rw [h2] at hu; simp at hu)
-        | upgrade rq => simp [applyPop, hd, hm]
+        | upgrade rq uctx => simp [applyPop, hd, hm]
   · simp at h
 
 /-- what the upgrade service then encodes is appended behind it -/
@@ -364,26 +365,7 @@ theorem C02_flush_loses_nothing (cfg : Cfg) (s s' : DState) (o : List Out) (k : 
   · simp at h; obtain ⟨rfl, rfl⟩ := h; exact ⟨_, rfl, List.take_append_drop k _⟩
   · simp at h
 
-def wCfgUp : Cfg := { kaEnabled := true, kaTimeout := true, reqTimeout := true, discTimeout := false,
-                      allowHalfClosed := true, writeBufSize := 32768, upgrade := true }
-def wReqUp : ReqFacts := { rid := 1, isHead := false, version := .h10, conn := .upgrade, expect := false, body := .stream }
 def wReq0 : ReqFacts := { rid := 0, isHead := false, version := .h11, conn := .keepAlive, expect := false, body := .none }
-
-/-- GET (handler pending once) + upgrade request (HTTP/1.0) in one read: the GET's response head is
-encoded with the upgrade request's version and connection type. -/
-def wUpEvents : List Event :=
-  [.pollStart, .enter, .readData [.head wReq0, .head wReqUp], .readPending, .start, .pollRequestEnter,
-   .decodeOne, .handlerPoll .pending, .decodeOne,
-   .handlerPoll (.ready { status := 200, connType := none, chunked := true, headers := [] } (.sized 0))]
-
-def firstHead : List Out → Option (Option Nat × Version × ConnType)
-  | [] => none
-  | .head r f :: _ => some (r, f.version, f.connType)
-  | _ :: rest => firstHead rest
-
-theorem witness_upgrade_ctx :
-    (run wCfgUp wUpEvents).map (fun r => firstHead r.2) = some (some (some 0, .h10, .upgrade)) := by
-  decide
 
 /-- **C02_failure_terminates**: when the response body fails (error from the body stream) the
 connection future completes with an error in that very step, and on every continuation of the
